@@ -17,6 +17,15 @@ def first(pattern, doc=""):
     return deco
 
 
+def tag_seqs(v, prefix):
+    """give every byte container directly inside a struct value a content identity, so that copies of it are recognised"""
+    if isinstance(v, Struct):
+        for i, fv in list(v.f.items()):
+            if isinstance(fv, Seq) and fv.view is None and fv.src is None:
+                v = v.with_field(i, Seq(fv.len, fv.elem, fv.items, None, ("%s.%s" % (prefix, i), Lin.const(0))))
+    return v
+
+
 def val(c, v):
     return c.deref(v)
 
@@ -219,10 +228,18 @@ def map_get(c):
                     r = c.it.top_of(s, c.fr.body, c.term["dest"]["ty"], hint="slot", region_prefix="mapslot:%s" % mid)
                     pv = r.v[1].get(0) if isinstance(r, Enum) and 1 in r.v else TOP
                     if isinstance(pv, Ref):
+                        if not pv.path and isinstance(s.cells.get(pv.cell), Struct):
+                            s.cells[pv.cell] = tag_seqs(s.cells[pv.cell], "slot")
+                            g = "ghost:slot0:%s:%s" % (mid, kr)
+                            s.cells[g] = s.cells[pv.cell]
+                            s.cells["ghost:slotcell:%s:%s" % (mid, kr)] = pv
+                            c.it.snapshots[g] = pv.cell
                         out.append((s, Enum(OPTION, {1: Struct({0: pv})})))
                         continue
-                    old = pv
+                    old = tag_seqs(pv, "slot")
                 s.cells[cell] = old
+                s.cells["ghost:slot0:%s:%s" % (mid, kr)] = old
+                s.cells["ghost:slotcell:%s:%s" % (mid, kr)] = Ref(cell)
             out.append((s, Enum(OPTION, {1: Struct({0: Ref(cell)})})))
         else:
             out.append((s, Enum(OPTION, {0: Struct()})))
@@ -273,6 +290,22 @@ def map_iter(c):
     n = c.it.fresh_num(c.st, 0, ISIZE_MAX, "nmap")
     if mid is None:
         return [(c.st, Iter(n.e, False, "map"))]
+    k = getattr(c.it, "map_elems", 0)
+    if k:
+        # bounded mode: the map holds exactly k distinct entries, visited in some order
+        refs = {}
+        for i in range(k):
+            cell_i = "mapelem:%s#%d" % (mid, i + 1)
+            if cell_i not in c.st.cells:
+                elem = TOP
+                for a in c.term["func"].get("targs", []):
+                    t = c.fr.body.ty(a)
+                    if t.get("k") == "adt" and t["path"].split("::")[0] in ("stun_proto", "stun_types") and "TransactionId" not in t["path"]:
+                        elem = tag_seqs(c.it.top_of(c.st, c.fr.body, a, hint="elem%d" % (i + 1), region_prefix=cell_i), "elem%d" % (i + 1))
+                c.st.cells[cell_i] = elem
+            refs[i] = Ref(cell_i)
+        event(c.st, "iterate", mid, c.name.rsplit("::", 1)[1])
+        return [(c.st, Iter(Lin.const(k), False, "mapk", None, Struct(refs, tag="elems")))]
     cell = "mapelem:%s" % mid
     if cell not in c.st.cells:
         # one summary element standing for every value of the map
@@ -283,7 +316,7 @@ def map_iter(c):
         for a in c.term["func"].get("targs", []):
             t = c.fr.body.ty(a)
             if t.get("k") == "adt" and t["path"].split("::")[0] in ("stun_proto", "stun_types") and "TransactionId" not in t["path"]:
-                elem = it.top_of(c.st, c.fr.body, a, hint="elem", region_prefix=cell)
+                elem = tag_seqs(it.top_of(c.st, c.fr.body, a, hint="elem", region_prefix=cell), "elem")
         c.st.cells[cell] = elem
     event(c.st, "iterate", mid, c.name.rsplit("::", 1)[1])
     return [(c.st, Iter(n.e, False, "map", None, Ref(cell)))]
@@ -293,6 +326,16 @@ def map_iter(c):
 def map_iter_next(c):
     v = c.deref(c.args[0])
     none = Enum(OPTION, {0: Struct()})
+    if isinstance(v, Iter) and v.kind == "mapk" and isinstance(v.items, Struct):
+        idx = sorted(v.items.f)
+        if not idx:
+            return [(c.st, none)]
+        first = v.items.f[idx[0]]
+        rest = Iter(Lin.const(len(idx) - 1), False, "mapk", None, Struct({i: v.items.f[i] for i in idx[1:]}, tag="elems"))
+        if isinstance(c.args[0], Ref):
+            c.it.store(c.st, c.args[0].cell, c.args[0].path, rest)
+        event(c.st, "next", idx[0])
+        return [(c.st, Enum(OPTION, {1: Struct({0: first})}))]
     if isinstance(v, Iter) and isinstance(v.items, V):
         return [(c.st, none), (c.st.copy(), Enum(OPTION, {1: Struct({0: v.items})}))]
     return [(c.st, c.top_ret())]
